@@ -13,12 +13,17 @@ use crate::Error;
 use bytes::{Buf, BytesMut};
 use std::io::Cursor;
 use tokio::io::{AsyncReadExt, AsyncWriteExt};
+#[cfg(not(rdest_verif))]
 use tokio::net::TcpStream;
+#[cfg(rdest_verif)]
+use crate::verif::net::TcpStream;
 
 pub struct Connection {
     pub addr: String,
     socket: Option<TcpStream>,
     buffer: BytesMut,
+    #[cfg(rdest_verif)]
+    pub verif_sent: Vec<String>,
 }
 
 impl Connection {
@@ -27,6 +32,8 @@ impl Connection {
             addr,
             socket: None,
             buffer: BytesMut::with_capacity(MAX_FRAME_SIZE),
+            #[cfg(rdest_verif)]
+            verif_sent: vec![],
         }
     }
 
@@ -59,6 +66,8 @@ impl Connection {
     ) -> Result<(), Box<dyn std::error::Error>> {
         if let Some(socket) = self.socket.as_mut() {
             socket.write_all(msg.data().as_slice()).await?;
+            #[cfg(rdest_verif)]
+            self.verif_sent.push(crate::verif::trace::describe(msg.data().as_slice()));
         }
 
         Ok(())
@@ -113,5 +122,13 @@ impl Connection {
             Err(Error::Incomplete(_)) => Ok(None),
             Err(e) => Err(e.into()),
         }
+    }
+}
+
+#[cfg(rdest_verif)]
+impl Connection {
+    /// Number of received bytes not yet consumed by the parser.
+    pub fn verif_buffer_len(&self) -> usize {
+        self.buffer.len()
     }
 }
